@@ -126,6 +126,14 @@ CHECKS.update({
     ),
 })
 
+CHECKS.update({
+    "C19": dict(
+        text="explicit-state search over clones of the real indenting Writer: BFS for indent char {space, tab} x size 0..9 over 20 event instances (all ten kinds incl. empty Text/CDATA and a final Eof), states merged by a probe-derived canonical key, explored past 160 indent characters (beyond the pre-allocated 128) and through saturation at zero; on every transition the appended bytes must be [newline indent*] + the plain writer's bytes, the prefix only before markup not following Text/CData; plus the unmerged tree of all sequences <=4/5 with read-back (events equal modulo blank-only text, payloads byte-identical), the async indenting writer vs the sync one, and for the whole C06 family the raw event streams of indented vs plain serde output and equal deserialized values",
+        note="canonicalisation argument: Indentation's future depends only on should_line_break and current_indent_len, both revealed by two probe comments on a clone; the number of indent characters is not prescribed by the property and not checked",
+        technique="explicit-state BFS over real Writer states with a sound canonical key, plus bounded-exhaustive sequence enumeration with read-back and a plain-writer differential oracle",
+    ),
+})
+
 PENDING_REASON = "check not built yet (work in progress; see DESIGN.md §9 for the order of work)"
 
 ALL = ["C%02d" % i for i in range(1, 21)]
